@@ -1,7 +1,8 @@
 //! C20 — every encodable value appends exactly its wire encoding and reports its size.
 //!
 //! Case encoding: [prefill code][tag][parameters]
-//!   prefill code: 0 -> 0 bytes, 1 -> 1, 2 -> 16, 3 -> 1000, 4 -> limit - |encoding| (limit = 16 + 65535)
+//!   prefill code: 0 -> 0 bytes, 1 -> 1, 2 -> 16, 3 -> 1000, 4 -> limit - |encoding| (limit = 16 + 65535),
+//!                 5 -> limit - 1, 6 -> limit - 3, 7 -> limit - 100   (the value straddles the limit)
 //!   tag 1 integer [type 0..=11][value 0..=5]      tag 2 address value (values::AV)
 //!   tag 3 TypeLengthValue [kind][len x3]          tag 4 (u8, &[u8]) [kind][len x3]
 //!   tag 5 (Type, &[u8]) [type index][len x3]      tag 6 byte slice [len x3]
@@ -24,8 +25,8 @@ pub fn def() -> PropDef {
         run,
         shrink: Shrink::None,
         render,
-        rule: "every WriteToHeader type: 12 integer types x {min, -1/max, 0, 1, max, byte pattern}; every address value of UA; TypeLengthValue / (u8,&[u8]) / (Type,&[u8]) / &TypeLengthValue for every type byte at length 0 and for three type bytes at value lengths L (quick: 0..=300 and 65533..=65536; thorough: every 0..=65536); [u8] at the same lengths; TLV sections (all strings over a 5-byte alphabet up to length 6); every Type; each written into writers pre-filled with 0, 1, 16, 1000 and limit-|encoding| bytes; finish() must be prefill ++ encoding, the return value |encoding|, to_bytes() the encoding; oversized values must be refused leaving the writer unchanged; non-trivial = every case; distinct = hash of the case",
-        assumptions: &["precondition as checked: prefill + |encoding| <= 16 + 65535, so every constituent write sees a writer that is not over its limit; writes that straddle the limit are outside 'a writer that is below its size limit' and are not asserted either way"],
+        rule: "every WriteToHeader type: 12 integer types x {min, -1/max, 0, 1, max, byte pattern}; every address value of UA; TypeLengthValue / (u8,&[u8]) / (Type,&[u8]) / &TypeLengthValue for every type byte at length 0 and for three type bytes at value lengths L (quick: 0..=300 and 65533..=65536; thorough: every 0..=65536); [u8] at the same lengths; TLV sections (all strings over a 5-byte alphabet up to length 6); every Type; each written into writers pre-filled with 0, 1, 16, 1000, limit-|encoding|, limit-1, limit-3 and limit-100 bytes (the last three make the value straddle the limit); finish() must be prefill ++ encoding, the return value |encoding|, to_bytes() the encoding; oversized values must be refused leaving the writer unchanged; non-trivial = every case; distinct = hash of the case",
+        assumptions: &["'a writer that is below its size limit' is read literally: the writer holds fewer than 16 + 65535 bytes before the write; the whole encoding must then be appended even if it carries the buffer past the limit (the trait documentation says the total may exceed u16::MAX); nothing is asserted about writers already at or over the limit"],
     }
 }
 
@@ -55,10 +56,14 @@ fn run_one(acc: &mut Acc, what: &str, prefill_code: u8, expected: Option<Vec<u8>
         1 => 1,
         2 => 16,
         3 => 1000,
-        _ => LIMIT.saturating_sub(enc_len),
+        4 => LIMIT.saturating_sub(enc_len),
+        5 => LIMIT - 1,
+        6 => LIMIT - 3,
+        _ => LIMIT - 100,
     };
-    if expected.is_some() && prefill_len + enc_len > LIMIT {
-        acc.class("outside precondition", "-");
+    // precondition of the property: the writer is below its size limit (it holds fewer than 16 + 65535 bytes)
+    if prefill_len >= LIMIT {
+        acc.class("writer not below its limit", "-");
         return;
     }
     let prefill: Vec<u8> = (0..prefill_len).map(|i| ((i * 13 + 5) % 256) as u8).collect();
@@ -197,7 +202,7 @@ fn l3(n: usize) -> [u8; 3] {
 
 pub fn cases(thorough: bool) -> Vec<Vec<u8>> {
     let mut out = Vec::new();
-    let prefills = [0u8, 1, 2, 3, 4];
+    let prefills = [0u8, 1, 2, 3, 4, 5, 6, 7];
     for &pc in &prefills {
         for t in 0..12u8 {
             for v in 0..6u8 {
@@ -227,7 +232,7 @@ pub fn cases(thorough: bool) -> Vec<Vec<u8>> {
     let lens: Vec<usize> = if thorough { (0..=65536).collect() } else { (0..=300).chain(65533..=65536).chain([511, 512, 4095, 4096, 32767, 32768]).collect() };
     for &l in &lens {
         let ll = l3(l);
-        let pcs: &[u8] = if thorough && l > 300 && l < 65500 && l % 64 != 0 { &[0, 4] } else { &prefills };
+        let pcs: &[u8] = if thorough && l > 300 && l < 65500 && l % 64 != 0 { &[0, 4, 5] } else { &prefills };
         for &pc in pcs {
             for k in [0x00u8, 0x04, 0xff] {
                 out.push(case(pc, 3, &[k, ll[0], ll[1], ll[2]]));
@@ -265,7 +270,7 @@ impl Universe for Sections {
         let inner = u2::tlv_byte_universe(self.n);
         let mut buf = Vec::new();
         inner.run_unit(u, &mut |s: &[u8]| {
-            for pc in [0u8, 2, 4] {
+            for pc in [0u8, 2, 4, 5, 6] {
                 buf.clear();
                 buf.push(pc);
                 buf.push(7);
@@ -286,7 +291,7 @@ impl Universe for AddrCases {
         "UW-addresses".into()
     }
     fn bound(&self) -> Value {
-        json!({"addresses": self.inner.bound(), "prefills": 5})
+        json!({"addresses": self.inner.bound(), "prefills": 8})
     }
     fn units(&self) -> usize {
         self.inner.units()
@@ -297,7 +302,7 @@ impl Universe for AddrCases {
     fn run_unit(&self, u: usize, f: &mut dyn FnMut(&[u8])) {
         let mut buf = Vec::new();
         self.inner.run_unit(u, &mut |av: &[u8]| {
-            for pc in [0u8, 1, 2, 3, 4] {
+            for pc in [0u8, 1, 2, 3, 4, 5, 6, 7] {
                 buf.clear();
                 buf.push(pc);
                 buf.push(2);
